@@ -158,8 +158,13 @@ def run(ctx):
         meta.append((dict(base, kernel='one_point'), [Pp1.tolist(), Pj1.tolist(), Px1.tolist()]))
         ctx.case(('one_point', it), nontriv)
         ctx.count('kernel:one_point')
-        # ---- oracle on the public routines
-        oracle(ctx, interp, Ad, A, theta, norm, spl, sym, rowsum0, base)
+        # ---- oracle on the public routines (every third matrix with the column indices of each row in shuffled order)
+        Aor = A
+        if it % 3 == 1:
+            Aor = gen.unsorted_copy(A, rng)
+            Aor.indptr, Aor.indices = Aor.indptr.astype(I32), Aor.indices.astype(I32)
+            Aor.has_sorted_indices = False
+        oracle(ctx, interp, Ad, Aor, theta, norm, spl, sym, rowsum0, dict(base, unsorted_indices=(it % 3 == 1)))
     ctx.corr_relations = ['amg_core.rs_direct_interpolation_pass1/2, remove_strong_FF_connections, rs_classical_interpolation_pass1/2, one_point_interpolation '
                           '== Interp.* at PrimFloat (bit-exact)']
     bad, errs = cq.run_cases('c11', HEADER, 'caseT', 'chk', cases, shard=60)
